@@ -31,7 +31,7 @@ def cases(tier):
     out = []
     for r in range(400 if tier == "quick" else 20000):
         out.append(("cl", r))
-    for r in range(2 if tier == "quick" else 12):
+    for r in range(6 if tier == "quick" else 40):
         out.append(("pool", r))
     for r in range(60 if tier == "quick" else 3000):
         out.append(("rep", r))
@@ -279,11 +279,28 @@ def _underenumerates(pred):
 def _run_pool(ctx, spec, rng):
     from toqito.nonlocal_games.nonlocal_game import NonlocalGame
 
-    # > 1000 strategies on the enumerated side => multiprocessing.Pool branch
-    shapes = [(2, 2, 10, 10), (2, 2, 11, 10), (3, 3, 7, 7), (2, 2, 10, 11)]
+    # > 1000 strategies on the enumerated side => multiprocessing.Pool branch.  Strategy counts that are not powers of two (3^7, 5^5, 6^4, 3^8) and a
+    # planted optimal answer function at the end, the start or the middle of the enumeration: work split into chunks must still cover every strategy
+    shapes = [(3, 3, 7, 7), (2, 2, 10, 10), (4, 3, 6, 7), (5, 5, 5, 5), (2, 2, 11, 10), (6, 6, 4, 4), (3, 4, 7, 6), (2, 2, 10, 11), (3, 3, 8, 7), (4, 4, 6, 5)]
     a, b, x, y = shapes[spec[1] % len(shapes)]
-    prob, _ = rand_prob(rng, x, y)
-    pred = (rng.random((a, b, x, y)) < 0.5).astype(float)
+    if spec[1] % 5 == 4:
+        prob, _ = rand_prob(rng, x, y)
+    else:
+        prob = rng.random((x, y)) + 0.3  # full support: a planted optimum is then the unique optimum, no other answer function ties with it
+        prob = prob / prob.sum()
+    plant = ["last", "first", "random", "none"][(spec[1] + spec[1] // len(shapes)) % 4]
+    frac = bool((spec[1] // 3) % 2)
+    pred = (rng.random((a, b, x, y)) < (0.5 if plant == "none" else 0.3)).astype(float)
+    if frac:
+        pred = pred * rng.uniform(0.3, 0.9, size=pred.shape)
+    if plant != "none":
+        # plant one pair of answer functions (f*, g*) that wins every question pair; every other entry wins with probability 0.3, so (f*, g*) is the
+        # unique optimum (value 1) whichever player the library enumerates, and it sits at the end / start / middle of that enumeration
+        f = {"last": [a - 1] * x, "first": [0] * x}.get(plant) or [int(t) for t in rng.integers(0, a, size=x)]
+        g = {"last": [b - 1] * y, "first": [0] * y}.get(plant) or [int(t) for t in rng.integers(0, b, size=y)]
+        for i in range(x):
+            for j in range(y):
+                pred[f[i], g[j], i, j] = 1.0
     game = ctx.call(NonlocalGame, prob.copy(), pred.copy())
     if game is FAILED:
         return
@@ -291,8 +308,8 @@ def _run_pool(ctx, spec, rng):
     if val is FAILED:
         return
     want = ref.classical_value(prob, pred)
-    ctx.check("O1:classical-pooled", None, dev=abs(val - want), tol=1e-9, sig=(a, b, x, y), nt=True, mech="classical_value:pooled-mismatch",
-              detail={"shape": [a, b, x, y], "library": val, "bruteforce": want})
+    ctx.check("O1:classical-pooled", None, dev=abs(val - want), tol=1e-9, sig=(a, b, x, y, plant, frac), nt=True, mech="classical_value:pooled-mismatch",
+              detail={"shape": [a, b, x, y], "planted": plant, "library": val, "bruteforce": want})
     ctx.check("O5:game-unchanged", np.array_equal(game.pred_mat, pred) and np.array_equal(game.prob_mat, prob), sig=("pooled",), mech="classical_value:mutates-game-pooled",
               detail={"shape": [a, b, x, y]})
 
